@@ -69,10 +69,13 @@ func runC07(r *Report, tier string) {
 			fs.add(c)
 		}
 		if k, _ := P.classifyErr(p.results()[0], fs); k != exitFailure {
+			// a success path on which the decoded content is known to be empty
 			for _, c := range p.conds {
-				if c.Val && c.Pred.Op == "binop" && c.Pred.S == "==" && c.Pred.Args[0].String() == "0" && c.Pred.Args[1].Op == "len" && strings.Contains(c.Pred.Args[1].String(), "UnmarshalCBOR>") && !strings.Contains(c.Pred.Args[1].String(), "map[any]any") {
-					emptyOK = true
-				}
+				c.Pred.walk(func(u *Term) {
+					if u.Op == "len" && strings.Contains(u.Args[0].String(), "UnmarshalCBOR>") && !strings.Contains(u.Args[0].String(), "map[any]any") && fs.holdsEmpty(u.Args[0]) {
+						emptyOK = true
+					}
+				})
 			}
 		}
 		for _, c := range p.conds {
